@@ -63,7 +63,8 @@ def handleTree (op : String) (args : List String) : Option String :=
   | "parse", [multiple, tab, text] =>
     let t := decStr text
     -- names are matched against Python's Unicode-aware `\w`; the model is ASCII
-    match parseText (tableDec (decTable tab)) (multiple == "1") t with
+    -- `tzok := fun _ => true`: the harness skips inputs whose parse fails inside cache_timezone_component
+    match parseText (fun _ => true) (tableDec (decTable tab)) (multiple == "1") t with
     | none => some "err:ValueError"
     | some (comps, log) =>
       if comps.any hasMiss then some "table-miss" else
